@@ -55,4 +55,87 @@ theorem binCmp_fuel : ∀ (f f' n m : Nat), n < f → n < f' → binCmp f n m = 
 theorem baseCmp_swap (a b : IExp) : (baseCmp a b).swap = baseCmp b a := by
   cases a <;> cases b <;> simp only [baseCmp, ordThen_swap, natCompare_swap]
 
+theorem numCmp_swap (n m : Nat) : (numCmp n m).swap = numCmp m n := by
+  unfold numCmp
+  by_cases hs : numSize n = numSize m
+  · rw [if_neg (show ¬ (numSize n ≠ numSize m) from fun h => h hs),
+      if_neg (show ¬ (numSize m ≠ numSize n) from fun h => h hs.symm)]
+    by_cases h1 : n < 2 <;> by_cases h2 : m < 2
+    · rw [if_pos (show (decide (n < 2) && decide (m < 2)) = true by simp [h1, h2]),
+        if_pos (show (decide (m < 2) && decide (n < 2)) = true by simp [h1, h2]), natCompare_swap]
+    · rw [if_neg (show ¬ (decide (n < 2) && decide (m < 2)) = true by simp [h2]),
+        if_neg (show ¬ (decide (m < 2) && decide (n < 2)) = true by simp [h2]),
+        binCmp_fuel (n + 1) (n + m + 2) n m (by omega) (by omega),
+        binCmp_fuel (m + 1) (n + m + 2) m n (by omega) (by omega), binCmp_swap]
+    · rw [if_neg (show ¬ (decide (n < 2) && decide (m < 2)) = true by simp [h1]),
+        if_neg (show ¬ (decide (m < 2) && decide (n < 2)) = true by simp [h1]),
+        binCmp_fuel (n + 1) (n + m + 2) n m (by omega) (by omega),
+        binCmp_fuel (m + 1) (n + m + 2) m n (by omega) (by omega), binCmp_swap]
+    · rw [if_neg (show ¬ (decide (n < 2) && decide (m < 2)) = true by simp [h1]),
+        if_neg (show ¬ (decide (m < 2) && decide (n < 2)) = true by simp [h1]),
+        binCmp_fuel (n + 1) (n + m + 2) n m (by omega) (by omega),
+        binCmp_fuel (m + 1) (n + m + 2) m n (by omega) (by omega), binCmp_swap]
+  · rw [if_pos (show numSize n ≠ numSize m from hs),
+      if_pos (show numSize m ≠ numSize n from fun e => hs e.symm), natCompare_swap]
+
+/-- Comparing two monomial bodies the other way round gives the swapped answer. -/
+theorem bodyCmp_swap : ∀ a b : IExp, (bodyCmp a b).swap = bodyCmp b a := by
+  intro a
+  induction a with
+  | mul x y ihx ihy =>
+    intro b
+    cases b with
+    | mul x' y' =>
+      simp only [bodyCmp]
+      by_cases hs : (IExp.mul x y).size = (IExp.mul x' y').size
+      · rw [if_neg (show ¬ ((IExp.mul x y).size ≠ (IExp.mul x' y').size) from fun h => h hs),
+          if_neg (show ¬ ((IExp.mul x' y').size ≠ (IExp.mul x y).size) from fun h => h hs.symm),
+          ordThen_swap, ordThen_swap, natCompare_swap, ihx, ihy]
+      · rw [if_pos (show (IExp.mul x y).size ≠ (IExp.mul x' y').size from hs),
+          if_pos (show (IExp.mul x' y').size ≠ (IExp.mul x y).size from fun e => hs e.symm), natCompare_swap]
+    | pow b e =>
+      simp only [bodyCmp]
+      by_cases hs : (IExp.mul x y).size = (IExp.pow b e).size
+      · rw [if_neg (show ¬ ((IExp.mul x y).size ≠ (IExp.pow b e).size) from fun h => h hs),
+          if_neg (show ¬ ((IExp.pow b e).size ≠ (IExp.mul x y).size) from fun h => h hs.symm),
+          ordThen_swap, natCompare_swap]
+        rfl
+      · rw [if_pos (show (IExp.mul x y).size ≠ (IExp.pow b e).size from hs),
+          if_pos (show (IExp.pow b e).size ≠ (IExp.mul x y).size from fun e => hs e.symm), natCompare_swap]
+    | atom i s => simp only [bodyCmp, natCompare_swap]
+    | num z => simp only [bodyCmp, natCompare_swap]
+    | add u v => simp only [bodyCmp, natCompare_swap]
+    | sub u v => simp only [bodyCmp, natCompare_swap]
+    | neg u => simp only [bodyCmp, natCompare_swap]
+  | pow b e _ =>
+    intro c
+    cases c with
+    | mul x y =>
+      simp only [bodyCmp]
+      by_cases hs : (IExp.pow b e).size = (IExp.mul x y).size
+      · rw [if_neg (show ¬ ((IExp.pow b e).size ≠ (IExp.mul x y).size) from fun h => h hs),
+          if_neg (show ¬ ((IExp.mul x y).size ≠ (IExp.pow b e).size) from fun h => h hs.symm),
+          ordThen_swap, natCompare_swap]
+        rfl
+      · rw [if_pos (show (IExp.pow b e).size ≠ (IExp.mul x y).size from hs),
+          if_pos (show (IExp.mul x y).size ≠ (IExp.pow b e).size from fun e => hs e.symm), natCompare_swap]
+    | pow b' e' =>
+      simp only [bodyCmp]
+      by_cases hs : (IExp.pow b e).size = (IExp.pow b' e').size
+      · rw [if_neg (show ¬ ((IExp.pow b e).size ≠ (IExp.pow b' e').size) from fun h => h hs),
+          if_neg (show ¬ ((IExp.pow b' e').size ≠ (IExp.pow b e).size) from fun h => h hs.symm),
+          ordThen_swap, baseCmp_swap, numCmp_swap]
+      · rw [if_pos (show (IExp.pow b e).size ≠ (IExp.pow b' e').size from hs),
+          if_pos (show (IExp.pow b' e').size ≠ (IExp.pow b e).size from fun e => hs e.symm), natCompare_swap]
+    | atom i s => simp only [bodyCmp, natCompare_swap]
+    | num z => simp only [bodyCmp, natCompare_swap]
+    | add u v => simp only [bodyCmp, natCompare_swap]
+    | sub u v => simp only [bodyCmp, natCompare_swap]
+    | neg u => simp only [bodyCmp, natCompare_swap]
+  | atom i s => intro b; cases b <;> simp only [bodyCmp, natCompare_swap]
+  | num z => intro b; cases b <;> simp only [bodyCmp, natCompare_swap]
+  | add u v _ _ => intro b; cases b <;> simp only [bodyCmp, natCompare_swap]
+  | sub u v _ _ => intro b; cases b <;> simp only [bodyCmp, natCompare_swap]
+  | neg u _ => intro b; cases b <;> simp only [bodyCmp, natCompare_swap]
+
 end Holpy.C10.IntN
